@@ -19,8 +19,67 @@ import (
 
 var (
 	progCache   = map[string]*syntax.Prog{}
+	minLenCache = map[string]int{}
 	progCacheMu sync.Mutex
 )
+
+// reMinLen is a lower bound on the number of bytes any match consumes.
+func reMinLen(re *syntax.Regexp) int {
+	switch re.Op {
+	case syntax.OpLiteral:
+		n := 0
+		for _, r := range re.Rune {
+			if re.Flags&syntax.FoldCase != 0 {
+				n++ // a folded rune may be shorter or longer in UTF-8; 1 is a safe bound
+			} else {
+				n += utf8.RuneLen(r)
+			}
+		}
+		return n
+	case syntax.OpCharClass, syntax.OpAnyCharNotNL, syntax.OpAnyChar:
+		return 1
+	case syntax.OpCapture:
+		return reMinLen(re.Sub[0])
+	case syntax.OpPlus:
+		return reMinLen(re.Sub[0])
+	case syntax.OpRepeat:
+		return re.Min * reMinLen(re.Sub[0])
+	case syntax.OpConcat:
+		n := 0
+		for _, s := range re.Sub {
+			n += reMinLen(s)
+		}
+		return n
+	case syntax.OpAlternate:
+		m := -1
+		for _, s := range re.Sub {
+			if l := reMinLen(s); m < 0 || l < m {
+				m = l
+			}
+		}
+		if m < 0 {
+			m = 0
+		}
+		return m
+	}
+	return 0
+}
+
+func regexMinLen(re *regexp.Regexp) int {
+	pat := re.String()
+	progCacheMu.Lock()
+	defer progCacheMu.Unlock()
+	if n, ok := minLenCache[pat]; ok {
+		return n
+	}
+	rx, err := syntax.Parse(pat, syntax.Perl)
+	n := 0
+	if err == nil {
+		n = reMinLen(rx)
+	}
+	minLenCache[pat] = n
+	return n
+}
 
 func compileProg(re *regexp.Regexp) *syntax.Prog {
 	pat := re.String()
@@ -47,6 +106,7 @@ type reMatcher struct {
 	bs    []value
 	runes map[int]decoded
 	steps int
+	minLen int
 }
 
 type decoded struct {
@@ -238,6 +298,9 @@ func (m *reMatcher) try(pc uint32, pos int, caps []int, visited map[uint64]bool)
 
 // find returns the leftmost-first match (capture index pairs) or nil.
 func (m *reMatcher) find(start int) []int {
+	if len(m.bs)-start < m.minLen {
+		return nil // no match can fit: decided without forking
+	}
 	ncap := m.prog.NumCap
 	if ncap < 2 {
 		ncap = 2
@@ -268,7 +331,7 @@ func (m *reMatcher) find(start int) []int {
 }
 
 func newMatcher(fr *frame, re *regexp.Regexp, s value) *reMatcher {
-	return &reMatcher{fr: fr, prog: compileProg(re), bs: strBytes(s), runes: map[int]decoded{}}
+	return &reMatcher{fr: fr, prog: compileProg(re), bs: strBytes(s), runes: map[int]decoded{}, minLen: regexMinLen(re)}
 }
 
 func init() {
